@@ -19,3 +19,17 @@ package scrapligo
 //@   ensures a_reply_with_an_error_is_never_a_response [C18]: called(EditConfig) && callres(EditConfig, 0, 1) == nil && callres(EditConfig, 0, 0) != nil &&
 //@            len(callres(EditConfig, 0, 0).ErrorMessages) > 0 ==> r0 == nil
 //@   ensures a_driver_error_is_an_error [C18]: called(EditConfig) && callres(EditConfig, 0, 1) != nil ==> r0 == nil && r1 != nil
+
+// commit and discard-changes: success is reported exactly when the library reports neither an error nor a failed reply
+//@ func (*ScrapligoNetconfTarget).Commit
+//@   props C18
+//@   nosafety only the verdict on the reply is claimed
+//@   requires snt != nil
+//@   ensures success_only_for_a_reply_that_did_not_fail [C18]: result == nil ==> called(Commit) && callres(Commit, 0, 1) == nil && (callres(Commit, 0, 0) != nil ==> callres(Commit, 0, 0).Failed == nil)
+//@   ensures a_failed_reply_is_an_error [C18]: called(Commit) && callres(Commit, 0, 1) == nil && callres(Commit, 0, 0) != nil && callres(Commit, 0, 0).Failed != nil ==> result != nil
+//@ func (*ScrapligoNetconfTarget).Discard
+//@   props C18
+//@   nosafety only the verdict on the reply is claimed
+//@   requires snt != nil
+//@   ensures success_only_for_a_reply_that_did_not_fail [C18]: result == nil ==> called(Discard) && callres(Discard, 0, 1) == nil && (callres(Discard, 0, 0) != nil ==> callres(Discard, 0, 0).Failed == nil)
+//@   ensures a_failed_reply_is_an_error [C18]: called(Discard) && callres(Discard, 0, 1) == nil && callres(Discard, 0, 0) != nil && callres(Discard, 0, 0).Failed != nil ==> result != nil
